@@ -73,6 +73,9 @@ func Parse() *Ctx {
 	flag.Parse()
 	c.Seed = seed
 	c.out = bufio.NewWriterSize(os.Stdout, 1<<16)
+	if c.Variant == "inst" || c.Variant == "race" {
+		simrt.RequireSim = true
+	}
 	return c
 }
 
